@@ -5,4 +5,4 @@ P="$1"; shift
 cd /repo && git apply -R "$P" || { echo "cannot reverse-apply $P"; exit 2; }
 cd /verif
 for c in "$@"; do ./check "$c" --tier quick 2>&1 | grep -E "VIOLATION|KNOWN|rc=" ; done
-cd /repo && git checkout -- . && git status --short | grep -v "^??" ; cd /verif && git checkout -- evidence/ 2>/dev/null; true
+cd /repo && git checkout -- . && git status --short | grep -v "^??" ; cd /verif && git checkout -- evidence/ lean/MW/Gen/ 2>/dev/null; true
